@@ -410,95 +410,7 @@ func runC18(p *Prog, r *Report) {
 	r.Check(uses == 2, "cover.type-url-prefix", "R-SINGLE-SOURCE", "-", "both unwrapping sites rebuild the type URL as DefaultAnyResolverPrefix + detail.Type()", fmt.Sprintf("only %d of the 2 sites that unwrap connect error details rebuild the type URL as DefaultAnyResolverPrefix + detail.Type(): details would not compare equal to the ones read from YAML", uses))
 
 	// ---- bin ----
-	nsuf, okSuf := 0, true
-	var dirs []string
-	for _, name := range []string{"ConvertMetadataToProtoHeader", "ConvertProtoHeaderToMetadata", "AppendToOutgoingContext"} {
-		fn := p.Func(pkgGU, "", name)
-		if fn == nil {
-			r.Undecided("bin."+name, "R-TABLE-AGREE", name+" not found")
-			continue
-		}
-		r.Func(funcName(fn))
-		eachInstr(fn, func(in ssa.Instruction) {
-			c, ok := in.(*ssa.Call)
-			if !ok || !isCallToNamed(&c.Call, "strings", "", "HasSuffix") {
-				return
-			}
-			s, isS := constString(c.Call.Args[1])
-			if !isS || s != "-bin" {
-				return
-			}
-			nsuf++
-			r.Sites++
-			arg := canon(c.Call.Args[0])
-			lowered := false
-			if cl, ok := arg.(*ssa.Call); ok && isCallToNamed(&cl.Call, "strings", "", "ToLower") {
-				lowered = true
-			}
-			// keys of grpc metadata.MD are lower-case by construction
-			if ex, ok := arg.(*ssa.Extract); ok {
-				if nx, ok := ex.Tuple.(*ssa.Next); ok {
-					if rg, ok := nx.Iter.(*ssa.Range); ok {
-						if nt, ok := rg.X.Type().(*types.Named); ok && nt.Obj().Name() == "MD" {
-							lowered = true
-						}
-					}
-				}
-			}
-			if !lowered {
-				okSuf = false
-				r.Fail("bin.suffix-on-lowered@"+name, "R-TABLE-AGREE", p.InstrPos(in), name+" tests the \"-bin\" suffix on "+path(arg)+", not on the lower-cased key: a key such as X-Data-Bin would be treated as text and base64-encoded a second time")
-			}
-			// direction: which codec call is on the suffix-true edge
-			enc, dec := false, false
-			eachInstr(fn, func(i2 ssa.Instruction) {
-				cc := callCommon(i2)
-				if cc == nil {
-					return
-				}
-				f := cc.StaticCallee()
-				if f == nil || f.Pkg == nil || f.Pkg.Pkg.Path() != "connectrpc.com/connect" {
-					return
-				}
-				if !guardedBy(i2, func(a Atom) bool { m, v := boolTestOn(a, func(x ssa.Value) bool { return canon(x) == ssa.Value(c) }); return m && v }) {
-					return
-				}
-				if f.Name() == "EncodeBinaryHeader" {
-					enc = true
-				}
-				if f.Name() == "DecodeBinaryHeader" {
-					dec = true
-				}
-			})
-			switch {
-			case enc && !dec:
-				dirs = append(dirs, name+":encode")
-			case dec && !enc:
-				dirs = append(dirs, name+":decode")
-			default:
-				dirs = append(dirs, name+":none")
-			}
-		})
-	}
-	if okSuf {
-		r.OK("bin.suffix-on-lowered", "R-TABLE-AGREE", "-", fmt.Sprintf("%d suffix tests, all on lower-cased keys", nsuf))
-	}
-	r.Floor("bin-suffix-tests", nsuf, 3)
-	sort.Strings(dirs)
-	r.Sites++
-	r.Check(fmt.Sprint(dirs) == "[AppendToOutgoingContext:decode ConvertMetadataToProtoHeader:encode ConvertProtoHeaderToMetadata:decode]", "bin.direction", "R-TABLE-AGREE", "-", "gRPC metadata → proto encodes, proto → gRPC metadata (both functions) decodes, each on the -bin edge", fmt.Sprintf("binary header handling is not symmetric: %v (expected metadata→proto: encode; proto→metadata and outgoing context: decode): a -bin value would be base64-encoded twice or not at all", dirs))
-	if fn := p.Func(pkgGU, "", "ConvertProtoHeaderToMetadata"); fn != nil {
-		okKey := false
-		eachInstr(fn, func(in ssa.Instruction) {
-			if mu, ok := in.(*ssa.MapUpdate); ok {
-				if c, ok := canon(mu.Key).(*ssa.Call); ok && isCallToNamed(&c.Call, "strings", "", "ToLower") {
-					okKey = true
-				}
-			}
-		})
-		r.Sites++
-		r.Check(okKey, "bin.keys-lowered", "R-WIRE", p.Pos(fn.Pos()), "metadata keys are stored lower-cased", "metadata keys are not stored lower-cased")
-	}
+	binRules(p, r)
 
 	// ---- percent ----
 	esc := p.Func(pkgGU, "", "ShouldEscapeByteInMessage")
@@ -606,4 +518,100 @@ func distinctChars(s string) bool {
 		seen[c] = true
 	}
 	return true
+}
+
+// binRules: the "-bin" (binary metadata) handling of the three grpcutil
+// converters is symmetric and decided on the lower-cased key. Shared by C18
+// (header conversion) and C02 (the gRPC peers see the same metadata as the
+// Connect peers).
+func binRules(p *Prog, r *Report) {
+	nsuf, okSuf := 0, true
+	var dirs []string
+	for _, name := range []string{"ConvertMetadataToProtoHeader", "ConvertProtoHeaderToMetadata", "AppendToOutgoingContext"} {
+		fn := p.Func(pkgGU, "", name)
+		if fn == nil {
+			r.Undecided("bin."+name, "R-TABLE-AGREE", name+" not found")
+			continue
+		}
+		r.Func(funcName(fn))
+		eachInstr(fn, func(in ssa.Instruction) {
+			c, ok := in.(*ssa.Call)
+			if !ok || !isCallToNamed(&c.Call, "strings", "", "HasSuffix") {
+				return
+			}
+			s, isS := constString(c.Call.Args[1])
+			if !isS || s != "-bin" {
+				return
+			}
+			nsuf++
+			r.Sites++
+			arg := canon(c.Call.Args[0])
+			lowered := false
+			if cl, ok := arg.(*ssa.Call); ok && isCallToNamed(&cl.Call, "strings", "", "ToLower") {
+				lowered = true
+			}
+			// keys of grpc metadata.MD are lower-case by construction
+			if ex, ok := arg.(*ssa.Extract); ok {
+				if nx, ok := ex.Tuple.(*ssa.Next); ok {
+					if rg, ok := nx.Iter.(*ssa.Range); ok {
+						if nt, ok := rg.X.Type().(*types.Named); ok && nt.Obj().Name() == "MD" {
+							lowered = true
+						}
+					}
+				}
+			}
+			if !lowered {
+				okSuf = false
+				r.Fail("bin.suffix-on-lowered@"+name, "R-TABLE-AGREE", p.InstrPos(in), name+" tests the \"-bin\" suffix on "+path(arg)+", not on the lower-cased key: a key such as X-Data-Bin would be treated as text and base64-encoded a second time")
+			}
+			// direction: which codec call is on the suffix-true edge
+			enc, dec := false, false
+			eachInstr(fn, func(i2 ssa.Instruction) {
+				cc := callCommon(i2)
+				if cc == nil {
+					return
+				}
+				f := cc.StaticCallee()
+				if f == nil || f.Pkg == nil || f.Pkg.Pkg.Path() != "connectrpc.com/connect" {
+					return
+				}
+				if !guardedBy(i2, func(a Atom) bool { m, v := boolTestOn(a, func(x ssa.Value) bool { return canon(x) == ssa.Value(c) }); return m && v }) {
+					return
+				}
+				if f.Name() == "EncodeBinaryHeader" {
+					enc = true
+				}
+				if f.Name() == "DecodeBinaryHeader" {
+					dec = true
+				}
+			})
+			switch {
+			case enc && !dec:
+				dirs = append(dirs, name+":encode")
+			case dec && !enc:
+				dirs = append(dirs, name+":decode")
+			default:
+				dirs = append(dirs, name+":none")
+			}
+		})
+	}
+	if okSuf {
+		r.OK("bin.suffix-on-lowered", "R-TABLE-AGREE", "-", fmt.Sprintf("%d suffix tests, all on lower-cased keys", nsuf))
+	}
+	r.Floor("bin-suffix-tests", nsuf, 3)
+	sort.Strings(dirs)
+	r.Sites++
+	r.Check(fmt.Sprint(dirs) == "[AppendToOutgoingContext:decode ConvertMetadataToProtoHeader:encode ConvertProtoHeaderToMetadata:decode]", "bin.direction", "R-TABLE-AGREE", "-", "gRPC metadata → proto encodes, proto → gRPC metadata (both functions) decodes, each on the -bin edge", fmt.Sprintf("binary header handling is not symmetric: %v (expected metadata→proto: encode; proto→metadata and outgoing context: decode): a -bin value would be base64-encoded twice or not at all", dirs))
+	if fn := p.Func(pkgGU, "", "ConvertProtoHeaderToMetadata"); fn != nil {
+		okKey := false
+		eachInstr(fn, func(in ssa.Instruction) {
+			if mu, ok := in.(*ssa.MapUpdate); ok {
+				if c, ok := canon(mu.Key).(*ssa.Call); ok && isCallToNamed(&c.Call, "strings", "", "ToLower") {
+					okKey = true
+				}
+			}
+		})
+		r.Sites++
+		r.Check(okKey, "bin.keys-lowered", "R-WIRE", p.Pos(fn.Pos()), "metadata keys are stored lower-cased", "metadata keys are not stored lower-cased")
+	}
 }
